@@ -52,6 +52,8 @@ func errClass(err error) string {
 		return "e1"
 	case errors.Is(err, errE2):
 		return "e2"
+	case err == io.EOF:
+		return "eof"
 	case err == errTO || errors.Is(err, os.ErrDeadlineExceeded):
 		return "to"
 	case errors.Is(err, context.Canceled), errors.Is(err, context.DeadlineExceeded):
@@ -186,6 +188,7 @@ func runScenario(sc *Scenario, strat rt.Strategy) *rt.Controller {
 		ch = netty.NewAsyncWriteChannel(sc.Qcap, sc.Until)(1, parent, pl, trx, ctlExec{c})
 	}
 	netty.NvAttach(pl, ch)
+	staleWriter := ch.Writer()
 	ctxs := make([]context.Context, sc.NCtx)
 	cancels := make([]context.CancelFunc, sc.NCtx)
 	for i := range ctxs {
@@ -235,6 +238,9 @@ func runScenario(sc *Scenario, strat rt.Strategy) *rt.Controller {
 					case "ww":
 						k, e := ch.Writer().Write(cp[0])
 						n, err = int64(k), e
+					case "sw": // through a writer obtained when the channel was created
+						k, e := staleWriter.Write(cp[0])
+						n, err = int64(k), e
 					case "wv":
 						n, err = ch.Writev(cp)
 					case "cw1":
@@ -250,6 +256,8 @@ func runScenario(sc *Scenario, strat rt.Strategy) *rt.Controller {
 							ch.Close(errE2)
 						case "to":
 							ch.Close(errTO)
+						case "eof": // what a peer hang-up closes the channel with
+							ch.Close(io.EOF)
 						default:
 							ch.Close(nil)
 						}
